@@ -277,22 +277,15 @@ Fixpoint norm (d : tsd) : tsd :=
   | other => other
   end.
 
-(* ---- the three classes on which the round trip is known to fail (known findings) ---- *)
+(* ---- the class on which the round trip is known to fail (known finding) ---- *)
 Definition num_token : str := s2l "$serde_json::private::Number".
 
-(* K3: the one binary32 magnitude (of 4,278,190,080 finite ones, enumerated against the
-   implementation) whose shortest spelling 7.038531e-26, read as a double, falls exactly on
-   the midpoint of two adjacent binary32 values: `as f32` then rounds to the wrong one *)
-Definition f32_dr (b : Z) : bool := b mod 2 ^ 31 =? 0x15ae43fd.
-
-(* K1: a map whose first emitted key (or a struct whose first field) is the private number token;
-   K2: a tuple variant without fields; K3: an f32 of the double-rounding class *)
+(* K1: a map whose first emitted key (or a struct whose first field) is the private number
+   token: SerializeMap takes it for the arbitrary-precision number hand-shake *)
 Fixpoint known_class (d : tsd) : bool :=
   match d with
-  | SdF32 b => f32_dr b
   | SdSome x | SdNewtypeStruct _ x | SdNewtypeVariant _ _ x => known_class x
-  | SdSeq l | SdTuple l | SdTupleStruct _ l => existsb known_class l
-  | SdTupleVariant _ _ l => match l with [] => true | _ => existsb known_class l end
+  | SdSeq l | SdTuple l | SdTupleStruct _ l | SdTupleVariant _ _ l => existsb known_class l
   | SdMap l =>
       match l with
       | (k, _) :: _ => match key_str k with Some s => str_eqb s num_token | None => false end
@@ -302,17 +295,6 @@ Fixpoint known_class (d : tsd) : bool :=
       match l with fx :: _ => str_eqb (fst fx) num_token | [] => false end
       || existsb (fun fx => known_class (snd fx)) l
   | SdStructVariant _ _ l => existsb (fun fx => known_class (snd fx)) l
-  | _ => false
-  end.
-
-(* K2 alone (the only class on which the detour through serde_json fails as well) *)
-Fixpoint k2_class (d : tsd) : bool :=
-  match d with
-  | SdSome x | SdNewtypeStruct _ x | SdNewtypeVariant _ _ x => k2_class x
-  | SdSeq l | SdTuple l | SdTupleStruct _ l => existsb k2_class l
-  | SdTupleVariant _ _ l => match l with [] => true | _ => existsb k2_class l end
-  | SdMap l => existsb (fun kv => k2_class (snd kv)) l
-  | SdStruct _ l | SdStructVariant _ _ l => existsb (fun fx => k2_class (snd fx)) l
   | _ => false
   end.
 
